@@ -25,7 +25,19 @@ def _feb30_leap_year(line):
     return m == 2 and d in (30, 31) and is_leap(y)
 
 
+def _iso_display_whole_second(line):
+    t = line.split()
+    if t[0] != "iso_vs_display" or len(t) != 4:
+        return False
+    # every scale's calendar zero is a whole second: the sub-second part of the fields is the count modulo one second
+    return val_of_parts(int(t[1]), int(t[2])) % SEC == 0
+
+
 KNOWN = [
+    {"status": "known", "property": "C19", "id": "iso8601-vs-display-whole-seconds", "pred": _iso_display_whole_second,
+     "what": "Formatter::new(e, ISO8601) prints '.000000000' for epochs with a zero sub-second part while Display omits the fraction "
+             "(1900-01-01T00:00:00 TAI): the two outputs differ; Display's form is pinned by tests/epoch.rs:607-611 and the non-optional %f of "
+             "ISO8601 by the unit test in src/efmt/format.rs (epoch_format_from_str), so neither side can change with the suite unedited"},
     {"status": "known", "property": "C08", "id": "feb-30-31-leap-year", "pred": _feb30_leap_year,
      "what": "is_gregorian_valid / maybe_from_gregorian accept 30 and 31 February in leap years (2020-02-30 -> 2020-03-01); "
              "tests/epoch.rs:1092 (test_range) builds 2012-02-30, so it cannot be repaired with the suite unedited"},
